@@ -12,7 +12,10 @@
      okc c                 c has no "/", is not "." and not ".."      (every component _encode / str(idx) produces)
      no_empty_component q  no component of q is the empty string
      no_suffix_clash p p'  p' is not  p ++ "_" ++ t  for any t made of digits, "_" and "-" *)
-From TS Require Import model.Base model.Flatten proofs.FlattenProofs model.StoragePath proofs.StoragePathProofs.
+From TS Require Import model.Base model.Flatten proofs.FlattenProofs gen.FlattenGen proofs.FlattenInst.
+From TS Require Import model.Chunk model.Batch proofs.ChunkProofs proofs.BatchProofs.
+From TS Require Import gen.PartitionGen model.Partition proofs.PartitionProofs.
+From TS Require Import model.StoragePath proofs.StoragePathProofs.
 From Coq Require Import Permutation.
 
 (* ------------------------------------------------------------------ confined *)
@@ -52,3 +55,192 @@ Theorem C05_confined_empty_app_key_refuted :
     resolve_s (location_of (mkLoc false false 0 q None)) = None.
 Proof. exact confined_empty_app_key_refuted. Qed.
 Print Assumptions C05_confined_empty_app_key_refuted.
+
+(* ------------------------------------------------------------------ tie of _encode to the source text *)
+(* gen/FlattenGen.v is regenerated from /repo/torchsnapshot/flatten.py on every run (translator/gen_flatten.py, fail
+   closed): the _encode that the current source defines is the modelled one - in particular it escapes "/", "%" and
+   the components "." and "..". *)
+Theorem C05_encode_source_is_model : forall s : pystr, encode_gen s = encode s.
+Proof. exact encode_gen_is_encode. Qed.
+Print Assumptions C05_encode_source_is_model.
+
+(* ------------------------------------------------------------------ distinct objects, distinct files *)
+(*   wf_path q   := q <> [] /\ Forall okc q          (C05_flatten_paths_wf: true of every path flatten produces)
+     relative q  := the first component (the encoded app_state key) is not empty
+     same_object a b := same storage prefix, same logical path, same chunk / shard offsets
+   For all saved pieces a, b (any prefixes, ranks, paths of any depth, offset lists of any length):
+   if the file system resolves their locations to the same file, they are the same piece - PROVIDED no key on the
+   way is empty and neither logical path is the other one plus "_" + offset-suffix characters. *)
+Theorem C05_location_injective : forall a b : litem,
+  wf_path (li_path a) -> wf_path (li_path b) -> relative (li_path a) -> relative (li_path b) ->
+  no_empty_component (li_path a) -> no_empty_component (li_path b) ->
+  no_suffix_clash (join (li_path a)) (join (li_path b)) -> no_suffix_clash (join (li_path b)) (join (li_path a)) ->
+  resolve_s (location_of a) = resolve_s (location_of b) -> same_object a b.
+Proof. exact location_injective. Qed.
+Print Assumptions C05_location_injective.
+
+(* same prefix <-> same storage class, and the same rank for rank-private objects: objects of different ranks never
+   share a location, replicated / sharded ones are told apart by path and offsets only *)
+Theorem C05_prefix_injective : forall sh rp r sh' rp' r', prefix_of sh rp r = prefix_of sh' rp' r' ->
+  sh = sh' /\ rp = rp' /\ (sh = false -> rp = false -> r = r').
+Proof. exact prefix_of_inj. Qed.
+Print Assumptions C05_prefix_injective.
+
+(* the hypotheses hold for everything flatten produces under a non-empty app_state key, except no_empty_component *)
+Theorem C05_flatten_paths_wf : forall (o : obj) (appkey : pystr) (q : path),
+  In q (all_paths o [encode appkey]) -> wf_path q /\ (appkey <> [] -> relative q).
+Proof. exact flatten_path_wf. Qed.
+Print Assumptions C05_flatten_paths_wf.
+
+(* slabs: "batched/<uuid>" is never an object's own location; distinct uuids are distinct files *)
+Theorem C05_slab_locations_apart : forall (u u' : pystr) (a : litem),
+  plain u -> plain u' -> wf_path (li_path a) -> relative (li_path a) ->
+  resolve_s (slab_location u) <> resolve_s (location_of a) /\
+  (resolve_s (slab_location u) = resolve_s (slab_location u') -> u = u').
+Proof.
+  intros u u' a Hu Hu' W R. split; [exact (slab_vs_item u a Hu W R) | exact (slab_location_injective u u' Hu Hu')].
+Qed.
+Print Assumptions C05_slab_locations_apart.
+
+(* no_suffix_clash is forced: {"w": chunked, "w_0": t} under "m" - chunk [0] of "m/w" and the leaf "m/w_0" have the
+   SAME location string "0/m/w_0".  KNOWN FINDING C05:location-clash:chunk-suffix-equals-sibling-key. *)
+Theorem C05_suffix_clash_refuted :
+  exists a b, wf_path (li_path a) /\ wf_path (li_path b) /\ relative (li_path a) /\ relative (li_path b) /\
+              no_empty_component (li_path a) /\ no_empty_component (li_path b) /\
+              location_of a = location_of b /\ ~ same_object a b.
+Proof. exact suffix_clash_refuted. Qed.
+Print Assumptions C05_suffix_clash_refuted.
+
+(* no_empty_component is forced: {"": {"x": t}, "x": t'} under "m" - "0/m//x" and "0/m/x" are different strings (and
+   no suffix clash) but the same file.  KNOWN FINDING C05:empty-key-component. *)
+Theorem C05_empty_component_refuted :
+  exists a b, wf_path (li_path a) /\ wf_path (li_path b) /\ relative (li_path a) /\ relative (li_path b) /\
+              no_suffix_clash (join (li_path a)) (join (li_path b)) /\ no_suffix_clash (join (li_path b)) (join (li_path a)) /\
+              location_of a <> location_of b /\
+              resolve_s (location_of a) = resolve_s (location_of b) /\ ~ same_object a b.
+Proof. exact empty_component_refuted. Qed.
+Print Assumptions C05_empty_component_refuted.
+
+(* ------------------------------------------------------------------ byte ranges of distinct saved objects never overlap *)
+(*   layout_refs items slabs : every reference a manifest holds - each un-batched piece refers to its own location as a
+       whole object; each member of slab (uuid, members) refers to "batched/<uuid>" with its byte range
+     overlaps r1 r2 : the two references resolve to the same file and (one is the whole object or the ranges share a byte)
+     good_item a  := wf_path, relative, no_empty_component     distinct_objects a b := ~ same_object /\ no suffix clash
+     good_slab T s (C16): non-empty, ranges consecutive from 0 to the slab size < T  - what batch_write_requests builds
+   For every threshold, every list of pairwise distinct objects, every list of slabs under pairwise distinct plain
+   uuids (the uuid4 oracle): NO two references overlap - within one slab by consecutiveness (C16), across slabs and
+   between slabs and own locations because the files differ. *)
+Theorem C05_ranges_disjoint : forall T (items : list litem) (slabs : list (pystr * list Batch.member)),
+  Forall good_item items -> ForallOrdPairs distinct_objects items ->
+  NoDup (map fst slabs) -> Forall (fun s => plain (fst s) /\ BatchProofs.good_slab T (snd s)) slabs ->
+  ForallOrdPairs (fun r1 r2 => overlaps r1 r2 = false) (layout_refs items slabs).
+Proof. exact ranges_disjoint. Qed.
+Print Assumptions C05_ranges_disjoint.
+
+(* ------------------------------------------------------------------ raw size *)
+(* Buffer-protocol tensors (path id, batchable, shape, element size; sizes >= 0; distinct paths), any threshold T >= 1.
+   After batch_write_requests every tensor is EITHER passed through unchanged (its entry keeps byte_range None and the
+   object written is the stager's buffer of esize * prod(shape) bytes - C17_serialized_length) OR relocated to exactly
+   one slab member whose range has length esize * prod(shape) and lies inside the slab [0, slab size). *)
+Theorem C05_raw_size : forall T (ts : list treq) slabs pass reloc,
+  1 <= T -> Forall (fun t => 0 <= t_esize t /\ Forall (fun s => 0 <= s) (t_shape t)) ts -> NoDup (map t_path ts) ->
+  Batch.batch_write T (map treq_wreq ts) = (slabs, pass, reloc) ->
+  forall t, In t ts ->
+    (Batch.dict_get Z.eqb (t_path t) reloc = None /\ In (treq_wreq t) pass)
+    \/ (exists k ms lo hi, Batch.dict_get Z.eqb (t_path t) reloc = Some (k, lo, hi) /\ In (k, ms) slabs /\
+                           In (t_path t, lo, hi) ms /\
+                           hi - lo = t_esize t * prodZ (t_shape t) /\ 0 <= lo /\ hi <= Batch.slab_sz ms).
+Proof. exact raw_size. Qed.
+Print Assumptions C05_raw_size.
+
+(* chunks: the pieces of a chunked tensor are boxes whose byte sizes esize * prod(piece shape) add up to the whole
+   tensor (each piece is written as a tensor of its own shape, so C05_raw_size applies to it) *)
+Theorem C05_raw_size_chunks : forall shape dim esize csz,
+  1 <= csz -> 0 < esize -> Forall (fun s => 0 < s) shape -> (dim < length (Chunk.shape1 shape))%nat ->
+  exists pieces, Chunk.chunk_tensor shape dim esize csz = Some pieces /\
+                 sumZ (map (fun p : Chunk.box => esize * prodZ (snd p)) pieces) = esize * prodZ (Chunk.shape1 shape).
+Proof.
+  intros shape dim esize csz H1 H2 H3 H4. destruct (ChunkProofs.chunk_partition shape dim esize csz H1 H2 H3 H4) as [pieces [E P]].
+  exists pieces. split; [exact E|]. destruct P as (lens & _ & _ & _ & _ & _ & S). exact S.
+Qed.
+Print Assumptions C05_raw_size_chunks.
+
+(* ------------------------------------------------------------------ the manifest lists every leaf exactly once *)
+(* one rank: the leaf paths of all its stateful objects (any objects, pairwise distinct app_state keys) are pairwise
+   distinct strings (C15 path uniqueness + injective, "/"-free _encode), and relative when no app key is "" *)
+Theorem C05_rank_leaf_paths_distinct : forall st : list (pystr * obj),
+  NoDup (map fst st) ->
+  NoDup (rank_leaf_paths st) /\
+  (Forall (fun kv : pystr * obj => fst kv <> []) st -> Forall relative_str (rank_leaf_paths st)).
+Proof. intros st N. split; [exact (rank_leaf_paths_nodup st N) | exact (rank_leaf_paths_relative st)]. Qed.
+Print Assumptions C05_rank_leaf_paths_distinct.
+
+(* all ranks: per-rank manifests ms (model/Partition.v: path ids, replicated flag per entry; keys distinct per rank;
+   a path replicated everywhere it appears or nowhere), consolidated as _gather_manifest does (C06), path ids named by
+   any injective [name] into relative path strings (by the theorem above: the leaf path strings).  Then the global
+   manifest keys "<rank>/<path>" are pairwise distinct; every private leaf of rank r is listed under r; every
+   replicated leaf is listed under rank 0 and under no other rank - once for the whole job. *)
+Theorem C05_manifest_lists_each_leaf_once : forall (name : Z -> pystr) (ms ms' : list Partition.manifest),
+  (forall a b, name a = name b -> a = b) -> (forall a, relative_str (name a)) ->
+  ms <> [] -> PartitionProofs.keys_distinct ms -> PartitionProofs.consistent ms -> Partition.consolidate ms = Some ms' ->
+  NoDup (global_paths (named_keys name ms')) /\
+  (forall r p e, In (p, e) (nth r ms []) -> Partition.is_repl e = false ->
+     In (manifest_path (Z.of_nat r) (name p)) (global_paths (named_keys name ms'))) /\
+  (forall m p e, In m ms -> In (p, e) m -> Partition.is_repl e = true ->
+     In (manifest_path 0 (name p)) (global_paths (named_keys name ms')) /\
+     forall r, (1 <= r)%nat -> ~ In (manifest_path (Z.of_nat r) (name p)) (global_paths (named_keys name ms'))).
+Proof. exact manifest_lists_each_leaf_once. Qed.
+Print Assumptions C05_manifest_lists_each_leaf_once.
+
+(* ------------------------------------------------------------------ non-vacuity: the adversarial names *)
+(* app key "m"; keys "..", ".", "%2E", "a/b", "a%2Fb", "w", "w_0" *)
+Definition C05_ex_obj : obj :=
+  ODict false [(KStr [46; 46], ODict false [(KStr [46; 46], Leaf 1)]); (KStr [46], Leaf 2); (KStr [37; 50; 69], Leaf 3);
+               (KStr [97; 47; 98], Leaf 4); (KStr [97; 37; 50; 70; 98], Leaf 5); (KStr [119], Leaf 6); (KStr [119; 95; 48], Leaf 7)].
+
+Example C05_ex_leaf_paths :
+  map fst (snd (flatten_s C05_ex_obj [109])) =
+  [[109; 47; 37; 50; 69; 37; 50; 69; 47; 37; 50; 69; 37; 50; 69];       (* m/%2E%2E/%2E%2E *)
+   [109; 47; 37; 50; 69];                                               (* m/%2E *)
+   [109; 47; 37; 50; 53; 50; 69];                                       (* m/%252E *)
+   [109; 47; 97; 37; 50; 70; 98];                                       (* m/a%2Fb *)
+   [109; 47; 97; 37; 50; 53; 50; 70; 98];                               (* m/a%252Fb *)
+   [109; 47; 119]; [109; 47; 119; 95; 48]].                             (* m/w  m/w_0 *)
+Proof. vm_compute. reflexivity. Qed.
+
+(* every location of these leaves, for the four prefixes, resolves to itself *)
+Example C05_ex_resolve_identity :
+  forallb (fun q => forallb (fun pr : bool * bool =>
+     opt_path_eqb (resolve_s (location_of (mkLoc (fst pr) (snd pr) 3 q (Some [0; 4]))))
+                  (Some (split (location_of (mkLoc (fst pr) (snd pr) 3 q (Some [0; 4]))))))
+     [(false, false); (false, true); (true, false); (true, true)])
+    (map fst (snd (flatten_top C05_ex_obj [109]))) = true.
+Proof. vm_compute. reflexivity. Qed.
+
+Example C05_ex_locations :
+  location_of (mkLoc false false 3 [[109]; [119]] (Some [0; 4])) = [51; 47; 109; 47; 119; 95; 48; 95; 52]    (* 3/m/w_0_4 *)
+  /\ location_of (mkLoc false true 3 [[109]; [119]] None) = s_replicated ++ [47; 109; 47; 119]
+  /\ location_of (mkLoc true false 3 [[109]; [119]] (Some [2])) = s_sharded ++ [47; 109; 47; 119; 95; 50]
+  /\ slab_location [97; 98] = [98; 97; 116; 99; 104; 101; 100; 47; 97; 98]
+  /\ manifest_path 2 [109; 47; 119] = [50; 47; 109; 47; 119].
+Proof. vm_compute. repeat split; reflexivity. Qed.
+
+(* resolution of "", ".", "..", absolute locations *)
+Example C05_ex_resolve :
+  resolve_s [48; 47; 109; 47; 47; 120] = Some [[48]; [109]; [120]]                   (* "0/m//x"  -> 0/m/x *)
+  /\ resolve_s [48; 47; 109; 47] = Some [[48]; [109]]                                 (* "0/m/"    -> the directory 0/m *)
+  /\ resolve_s [48; 47; 46; 47; 120] = Some [[48]; [120]]                             (* "0/./x" *)
+  /\ resolve_s [48; 47; 109; 47; 46; 46; 47; 120] = Some [[48]; [120]]                (* "0/m/../x" *)
+  /\ resolve_s [48; 47; 46; 46; 47; 46; 46; 47; 120] = None                           (* "0/../../x" *)
+  /\ resolve_s [47; 120] = None                                                      (* "/x" *)
+  /\ resolve_s [] = Some [].
+Proof. vm_compute. repeat split; reflexivity. Qed.
+
+(* the hypotheses of C05_ranges_disjoint are satisfiable: two objects (one chunked in two pieces), two slabs *)
+Example C05_ex_layout :
+  let items := [mkLoc false false 0 [[109]; [119]] (Some [0]); mkLoc false false 0 [[109]; [119]] (Some [4]);
+                mkLoc false true 0 [[109]; [120]] None] in
+  let slabs := [([97], [(10, 0, 2); (11, 2, 3)]); ([98], [(12, 0, 3); (13, 3, 3)])] in
+  obs_overlaps (layout_refs items slabs) = VL []
+  /\ obs_overlaps (layout_refs (items ++ [mkLoc false false 0 [[109]; [119; 95; 48]] None]) slabs) = VL [VL [VZ 0; VZ 3]].
+Proof. vm_compute. split; reflexivity. Qed.
